@@ -512,6 +512,19 @@ func execC18(x *Ctx, sc *wire.Scenario) *wire.Result {
 	}
 	res.Nontrivial = len(xx.K) > 0
 	fa, fb := oa.FinalSnap, ob.FinalSnap
+	if xx.Vi {
+		// the recording must be stopped and the macro run from command mode: if K leaves
+		// the editor elsewhere, "q" and "@" are text, not commands (not a macro replay at all)
+		stop := waitAfter(ob, xx.Setup+2+len(xx.K))
+		if stop == nil || stop.Main != "vi-command" || stop.Local != "" || stop.Kind != "main" {
+			res.Counters["skipped:K_does_not_end_in_command_mode"]++
+			return res
+		}
+		if w := waitAfter(oa, xx.Setup+len(xx.K)); w == nil || w.Main != "vi-command" || w.Local != "" || w.Kind != "main" {
+			res.Counters["skipped:K_does_not_end_in_command_mode"]++
+			return res
+		}
+	}
 	if fa.Line != fb.Line || fa.Pos != fb.Pos {
 		style := "emacs"
 		if xx.Vi {
@@ -520,6 +533,13 @@ func execC18(x *Ctx, sc *wire.Scenario) *wire.Result {
 		cls := "text"
 		if fa.Line == fb.Line {
 			cls = "cursor"
+		}
+		for i, t := range xx.K {
+			if xx.Vi && string(t.B) == "\x1b" && i < len(xx.K)-1 {
+				// a recorded lone ESC followed by another key: replayed at once they read as one ESC-prefixed sequence
+				cls += ":esc-followed-by-key"
+				break
+			}
 		}
 		return violation(res, "MISMATCH", "C18.replay-equals-retyping", "macro-replay-differs:"+style+":"+cls,
 			fmt.Sprintf("%s macro K=%v: typing K twice gives %q cursor %d; recording K and replaying it gives %q cursor %d",
